@@ -57,6 +57,7 @@ func init() {
 			"NOT decided: correctness of bit-level operation decoding and ring-buffer copying; equality with the reference decoder's output.",
 		run: func(c *Ctx, r *Report) {
 			ruleWriteMatchCE(c, r, "") // matches are copied byte by byte from dist back (overlap, ring wrap)
+			ruleStateResetCE(c, r, "") // a chunk with state reset starts from the initial coder state
 			t := getChunkTables(c, r, "")
 			ruleChunkAutomaton(c, r, t, "", "complete")
 			ruleControlByte(c, r, t, "", false)
